@@ -9,6 +9,10 @@ import (
 // storeLetters: mutations on x (2 keys) and y (1 key), collection management
 // of y, Flush, Evict, Reopen.  Letters on a collection are only offered while
 // it exists, so the alphabet depends on the state reached.
+// yName: the second collection's name needs JSON escaping in the root record
+// (control characters 0x01 and DEL).
+const yName = "y\x01\x7f"
+
 func storeLetters(withEvict, withCollMgmt bool) func(w *harness.World) []Letter {
 	return func(w *harness.World) []Letter {
 		var ls []Letter
@@ -29,16 +33,16 @@ func storeLetters(withEvict, withCollMgmt bool) func(w *harness.World) []Letter 
 				ls = append(ls, Letter{"Evict(x)", func(w *harness.World) { w.Evict("x") }})
 			}
 		}
-		if _, ok := w.Colls["y"]; ok {
-			ls = append(ls, Letter{"Set(y.a,1)", func(w *harness.World) { w.SetItem("y", kA, 1, bs("yy")) }},
-				Letter{"Del(y.a)", func(w *harness.World) { w.Delete("y", kA) }})
+		if _, ok := w.Colls[yName]; ok {
+			ls = append(ls, Letter{"Set(y.a,1)", func(w *harness.World) { w.SetItem(yName, kA, 1, bs("yy")) }},
+				Letter{"Del(y.a)", func(w *harness.World) { w.Delete(yName, kA) }})
 			if withCollMgmt {
-				ls = append(ls, Letter{"RemoveColl(y)", func(w *harness.World) { w.RemoveCollection("y") }})
+				ls = append(ls, Letter{"RemoveColl(y)", func(w *harness.World) { w.RemoveCollection(yName) }})
 			}
 		}
-		if mc := w.M.Cur.Colls["y"]; withCollMgmt && (mc == nil || harness.OrderOf(mc.Cmp) == "bytes" || len(mc.Items) <= 1) {
+		if mc := w.M.Cur.Colls[yName]; withCollMgmt && (mc == nil || harness.OrderOf(mc.Cmp) == "bytes" || len(mc.Items) <= 1) {
 			// (a comparator that changes the order may only be installed while it cannot matter)
-			ls = append(ls, Letter{"SetColl(y)", func(w *harness.World) { w.SetCollection("y", "nil") }})
+			ls = append(ls, Letter{"SetColl(y)", func(w *harness.World) { w.SetCollection(yName, "nil") }})
 		}
 		ls = append(ls, Letter{"Flush", func(w *harness.World) { w.Flush() }},
 			Letter{"Reopen", func(w *harness.World) { w.Reopen(true) }})
@@ -76,11 +80,18 @@ func c02Profiles(tier string) []Profile {
 			w.SetCollection("x", "nil")
 			w.SetItem("x", kA, 2, bs("v"))
 			w.SetItem("x", kB, 1, bs(""))
-			w.SetCollection("y", "nil")
-			w.SetItem("y", kA, 1, bs("yy"))
+			w.SetCollection(yName, "nil")
+			w.SetItem(yName, kA, 1, bs("yy"))
 			w.Flush()
 		},
-		Letters: storeLetters(true, true)}
+		Letters: func(w *harness.World) []Letter {
+			ls := storeLetters(true, true)(w)
+			if _, ok := w.Colls["x"]; ok {
+				// a key of exactly the maximum length must be durable like any other
+				ls = append(ls, Letter{"Set(x.key65535)", func(w *harness.World) { w.SetItem("x", longKey("m", 65535), 2, bs("max")) }})
+			}
+			return ls
+		}}
 	conc = append(conc, pre.Profile(fmt.Sprintf("initial state: x{a,b}, y{a} flushed; every history of length <= %d over the same alphabet (deleting or overwriting persisted items, removing persisted collections, then Flush / Reopen)", d-1)))
 	conc = append(conc, Profile{Name: "after-failed-flush", Exec: OnlyOracles(c07Exec(1, 1, false), "durable", "observe", "model"),
 		Budget: map[int]int{1: 0, 2: 0, 3: 1}, ShardLevel: 3,
